@@ -58,6 +58,26 @@ def _sinks(P, B, local, depth=0):
     return out
 
 
+def handle_send_lossless(ctx, rule):
+    """ProcessHandle::send is the one way a message gets into a mailbox: it must wait for room (mpsc Sender::send, awaited),
+    not give up when the mailbox is full (try_send)."""
+    P = ctx.P
+    bodies = [P.B(q) for q in ctx.F.bodies if q.split('::{')[0] == 'edp_node::process::ProcessHandle::send']
+    names = [n for B_ in bodies if B_ is not None for _, t in B_.calls() for n in callee_names(t)]
+    if not ctx.anchor(bool(bodies), 'edp_node::process::ProcessHandle::send'):
+        return
+    lossy = [n for n in names if n.rsplit('::', 1)[-1] in ('try_send', 'try_reserve', 'try_reserve_owned')]
+    waits = [n for n in names if n.endswith('Sender::<T>::send') or n.endswith('::reserve') or n.endswith('send_timeout')]
+    polled = any(n.endswith('Future::poll') for n in names)
+    if lossy:
+        ctx.bad(rule, 'ProcessHandle::send', 'ProcessHandle::send hands the message over with %s, which fails immediately when the mailbox is full: a message accepted for a live process is dropped '
+                'whenever that process is momentarily busy' % lossy[0].rsplit('::', 1)[-1], ctx.where(bodies[-1]), key='WHO:edp_node::process::ProcessHandle::send:lossy')
+    elif waits and polled:
+        ctx.ok(rule, 'ProcessHandle::send', 'awaits mpsc Sender::send (waits for room in the mailbox)', ctx.where(bodies[-1]))
+    else:
+        ctx.undecided(rule, 'ProcessHandle::send', 'delivery primitive not recognised: %s' % sorted(set(n.rsplit('::', 1)[-1] for n in names))[:6])
+
+
 def has_fields(projs, *names):
     return all(any(p == n or p == 'upvar:' + n for p in projs) for n in names)
 
@@ -212,6 +232,9 @@ def run(ctx):
             ctx.ok('C18.3-notify-before-remove', 'snapshots', 'iterates snapshots of the link set and the monitor set')
         else:
             ctx.bad('C18.3-notify-before-remove', 'snapshots', 'does not iterate both links and monitors: %s' % srcs, key='PROV:%s:snapshots' % PROP)
+
+    ctx.rule('C18.4-lossless-mailbox', 'a message accepted for a live process is put into its mailbox even when the mailbox is momentarily full', floor=1)
+    handle_send_lossless(ctx, 'C18.4-lossless-mailbox')
 
     # ---------------- clause 4: single consumer, one handler call per message --------------------------------
     ctx.rule('C18.4-one-handler-call', 'the process task is the single consumer of its mailbox and calls handle_message exactly once per received message', floor=1)
